@@ -1107,12 +1107,59 @@ def run_function_of_values_since_reset(ck):
                 ck.violation(dict(clause="function-of-values-since-reset", detector=det.name, var=bad), dict(what="after reset() the detector / its history callback reports something a new detector with a new callback does not report on the same values", detector=det.name, config=c, pre=pre, post=post, var=bad, after_reset=h1.get(bad), fresh=h2.get(bad)))
 
 
+NUMERIC_TYPES = [("int", int), ("float", float), ("bool", bool), ("np.uint8", np.uint8), ("np.int8", np.int8), ("np.int64", np.int64),
+                 ("np.float64", np.float64), ("np.bool_", np.bool_)]
+
+
+def run_input_representation(ck):
+    """The outputs are a function of the VALUES: a 0/1 stream handed over as Python ints, floats, bools or NumPy
+    scalars of any integer / float64 / bool type must give identical flags, counters and statistics.  Streams are long
+    and mostly ones, so that every internal count passes 127 and 255 (the wrap-around points of 8-bit scalars)."""
+    rng = ck.rng
+    ck.rule("input representation: one 0/1 stream of 300-420 values (about 85% ones, with a level change) fed as int / float / bool / np.uint8 / np.int8 / np.int64 / np.float64 / np.bool_ to all 13 detectors: identical traces required")
+    for det in ALL:
+        for rep in range(1 if ck.tier != "thorough" else 4):
+            c = det.gen_cfg(rng) if rep else default_cfg(det)
+            if det.name == "KSWIN":
+                c = dict(c, seed=rng.randrange(1, 1000))
+            n = rng.choice([300, 420]) if det.name != "BOCD" else 60
+            k = rng.randrange(n // 3, 2 * n // 3)
+            xs = [int(rng.random() < (0.9 if i < k else 0.8)) for i in range(n)]
+            base = None
+            for tname, ty in NUMERIC_TYPES:
+                try:
+                    d = det.make(c)
+                    tr = []
+                    for v in xs:
+                        d.update(value=ty(v))
+                        tr.append(canon(det.observe(d)))
+                except Exception as e:  # noqa: BLE001
+                    if base is None:
+                        break
+                    if isinstance(e, TypeError) and not tr:
+                        ck.count(f"representation_rejected_by_type_check:{tname}")  # a documented TypeError at the first update: the type is outside the accepted domain
+                        continue
+                    ck.violation(dict(clause="input-representation", detector=det.name, type=tname, error=type(e).__name__),
+                                 dict(what="a 0/1 stream raises when its values are handed over in another numeric representation", detector=det.name, config=c, type=tname, error=repr(e), stream_head=xs[:10], n=n))
+                    continue
+                if base is None:
+                    base = tr
+                    continue
+                ck.count("representation_runs")
+                if tr != base:
+                    step = next(i for i, (a, b_) in enumerate(zip(tr, base)) if a != b_)
+                    ck.violation(dict(clause="input-representation", detector=det.name, type=tname),
+                                 dict(what="the same 0/1 values give different outputs when handed over as another numeric type", detector=det.name, config=c, type=tname, first_differing_step=step, got=tr[step], as_python_int=base[step], ones_before=sum(xs[:step + 1]), stream_head=xs[:10], n=n))
+            ck.case(dict(kind="input-representation", detector=det.name, config=c, n=n), nontrivial=True, key=repr(("repr", det.name, c, xs[:20])))
+
+
 def main(tier, seed):
     ck = Check("C16", tier, seed)
     ck.proof = check_props("C16")
     ck.assumptions = ASSUMPTIONS
     run(ck)
     run_function_of_values_since_reset(ck)
+    run_input_representation(ck)
     return ck.finish()
 
 
